@@ -147,4 +147,13 @@ of the model is run on variant k of the data, **including the input snapshot the
 def simulateVariants {β γ α : Type} (run : β → γ → α) (models : List β) (datas : List γ) : List α :=
   List.zipWith run models (broadcastVariants models.length datas)
 
+/-! ## 6. `swap_anticipated` / `swap_unanticipated` with a list of pairs -/
+
+/-- `swap_*(dates, pairs)`: for every pair `(variable row, shock row)`, exogenize the variable and endogenize the shock at the dates;
+`exoK` / `endoK` are the two registers of the mode -/
+def Plan.swapPairs (p : Plan) (exoK endoK : Kind) (d : DateArg) (pairs : List (Nat × Nat)) (status : Bool) : Except PlanErr Plan :=
+  pairs.foldlM (fun p pr => do
+    let p1 ← p.writeDates exoK d [pr.1] status
+    p1.writeDates endoK d [pr.2] status) p
+
 end IrisVerif.Plans
